@@ -950,12 +950,15 @@ impl Walk {
                 return Ok(true);
             }
         }
-        if self.max_filesize.is_some() && !ent.is_dir() {
-            return Ok(skip_filesize(
+        if self.max_filesize.is_some()
+            && !ent.is_dir()
+            && skip_filesize(
                 self.max_filesize.unwrap(),
                 ent.path(),
                 &ent.metadata().ok(),
-            ));
+            )
+        {
+            return Ok(true);
         }
         if let Some(Filter(filter)) = &self.filter {
             if !filter(ent) {
